@@ -3,6 +3,8 @@
     kw <keyword>    → row of Gen.keywordTable ("<documented> <strictRejects>")
     conv <D>        → "<nonstrict> <strict>"  (ok | error | panic)
     inst <D> <J>    → "<P> <V> <R>\t<reasons>"  P = acceptsDecoded (fromJS d), V = jsValid d, R = jsValid (toDoc (fromJS d))
+  A ROOT document `( node ( const M ) )` / `( node ( enum M* ) )` whose members include arrays / objects is read by `pDJ`
+  and judged by `fromConstJ` / `fromEnumJ` / `parsePanicsJ` (P, "!" = ParseAny panics) and `jsonEq` (V).
 -/
 import Gozod.Drv.C07
 import Gozod.Model.FromJson
@@ -302,6 +304,44 @@ def inFragment (d : JS) : Bool × Bool :=
   | some j => (good j, good j && Gozod.C11.rt j)
   | none => (false, false)
 
+/-! ### root const / enum documents with array / object members -/
+
+inductive DJ
+  | const (v : Json)
+  | enum (vs : List Json)
+
+def pDJ : P DJ
+  | "(" :: "node" :: "(" :: "const" :: ts => do
+      let (v, ts) ← pJ ts
+      let (_, ts) ← expect ")" ts
+      let (_, ts) ← expect ")" ts
+      pure (.const v, ts)
+  | "(" :: "node" :: "(" :: "enum" :: ts => do
+      let (vs, ts) ← pMany pJ ts
+      let (_, ts) ← expect ")" ts
+      pure (.enum vs, ts)
+  | _ => none
+
+def DJ.conv : DJ → R
+  | .const v => fromConstJ v
+  | .enum vs => fromEnumJ vs
+
+def DJ.members : DJ → List Json
+  | .const v => [v]
+  | .enum vs => vs
+
+def DJ.valid : DJ → Json → Bool
+  | .const v, x => constValidJ v x
+  | .enum vs, x => enumValidJ vs x
+
+/-- the finding classes that can apply to this case: `composite-literal` only where the model itself predicts the panic
+    (an array / object instance meeting an array / object member), so that any other disagreement is reported. -/
+def DJ.why (d : DJ) (x : Json) : List String :=
+  (if parsePanicsJ d.members x then ["composite-literal"] else [])
+  ++ (match d with
+      | .enum vs => if vs.any (fun v => v.isNull) then ["nullable-union"] else []
+      | _ => [])
+
 /-- mirrors harness `intOnly`: numbers of the instance can only meet integer schemas. -/
 partial def intOnly : JS → Bool × Bool
   | .bool b => (!b, false)
@@ -329,7 +369,10 @@ def handle : List String → String
   | "conv" :: ts =>
     match pD ts with
     | some (d, []) => outcome (fromJS rejects false d) ++ " " ++ outcome (fromJS rejects true d)
-    | _ => "bad-op"
+    | _ =>
+      match pDJ ts with
+      | some (d, []) => outcome d.conv ++ " " ++ outcome d.conv
+      | _ => "bad-op"
   | "inst" :: ts =>
     match pD ts with
     | some (d, ts) =>
@@ -349,7 +392,18 @@ def handle : List String → String
             ++ "\t" ++ ",".intercalate rs
         | .error _ => "conversion-failed"
       | _ => "bad-op"
-    | none => "bad-op"
+    | none =>
+      match pDJ ts with
+      | some (d, ts) =>
+        match pJ ts with
+        | some (x, []) =>
+          match d.conv with
+          | .ok s =>
+            (if parsePanicsJ d.members x then "!" else b2s (acceptsDecoded s x)) ++ " " ++ b2s (d.valid x) ++ " ~ ~"
+              ++ "\t" ++ ",".intercalate (dedup (d.why x ++ instReasons x))
+          | .error _ => "conversion-failed"
+        | _ => "bad-op"
+      | none => "bad-op"
   | _ => "bad-op"
 
 end Gozod.Drv.C11
